@@ -275,7 +275,7 @@ PROPS = {
         "trusted_base": COMMON_TB + ["Expand/Expand.v: hand model of expander.go / schema_loader.go / resolver.go on JSON trees (base-path threading, parent stack, memo of circular refs, resolver roots, deref chains, rebasing, SkipSchemas/ContinueOnError/AbsoluteCircularRef, cache and loader log); abstractions: sub-schemas visited in JSON member order, `#/` refs into the live root read the original root (outputs on cyclic graphs compared through unfoldings)",
                                      "correspondence scope: every generated graph except those with schema ids and prefix-sibling documents (the areas of the open findings F9, F10, F10b), which are judged by the oracle only; multi-hop parameter/response/path-item chains and imported circular schemas are compared since the repairs of F7 and F8",
                                      "Codec/Codec.v (typed decoding of every resolved target) and Base/Url.v (normalizeURI, rebase)"],
-        "level_text": 'Coq theorems (Props/C04.v), unbounded: the tree walk is a structural recursion (guard-checked: it cannot diverge or get stuck); running out of fuel d requires d pairwise distinct canonical references nested in one another, all distinct from those on the stack (pigeonhole on the parent stack); RELATIVE TO THE REFERENCE GRAPH (Expand/ExpandTermG.v) those are references of the graph, so fuel above the number of references of a finite graph is never exhausted — from every consistent state, stack, resolver root, skip/abs setting (strict mode), and with every reference resolvable the expansion RETURNS A RESULT (ExpandComplete.v); the same pigeonhole for the $ref chains of parameters/responses/path items (deref), absolute and relative to the element graph; the composition over operations, path items and the four sections of ExpandSpec consumes no fuel. Discharged on the cyclic two-document graph: 5 references, fuel 6 suffices from any state.',
+        "level_text": 'Coq theorems (Props/C04.v), unbounded: the tree walk is a structural recursion (guard-checked: it cannot diverge or get stuck); running out of fuel d requires d pairwise distinct canonical references nested in one another, all distinct from those on the stack (pigeonhole on the parent stack); RELATIVE TO THE REFERENCE GRAPH (Expand/ExpandTermG.v) those are references of the graph, so fuel above the number of references of a finite graph is never exhausted — from every consistent state, stack, resolver root, skip/abs setting (strict mode), and with every reference resolvable the expansion RETURNS A RESULT (ExpandComplete.v); the same pigeonhole for the $ref chains of parameters/responses/path items (deref), absolute and relative to the element graph; the composition over operations, path items and the four sections of ExpandSpec consumes no fuel; chains of a well-formed resolvable element graph RETURN with fuel above the rank of their first hop (deref_succeeds), and ExpandSpec AS A WHOLE returns a document on every checked, resolvable graph from every consistent state (C04_expand_spec_returns: neither OutOfFuel nor a step outside the model). Discharged on the cyclic two-document graph: 5 references, fuel 6 suffices from any state; and on the two-document specification of C08_spec_example.',
         "level_note": 'Partial for the runtime half: stack exhaustion and panics are behaviour of the Go runtime that a functional model cannot exhibit; they are covered by the oracle (watchdog worker). The bound is relative to a finite graph satisfying the C02 hypotheses (no ids: F10, a relative-directory id on a cycle makes the set of references infinite and the expansion diverge, is an open finding). An earlier version of the bound quantified over ALL canonical references, a hypothesis no finite list satisfies; it was replaced (DESIGN.md section 12).',
         "technique": "Coq proof about a hand-written executable model of the expander + differential run (exact on acyclic graphs, unfoldings on cyclic ones) + property oracle on the implementation",
         "assumptions": ["loader is a function of the URL during one call", "documents are in normal form (reference objects carry only $ref)"],
@@ -287,8 +287,8 @@ PROPS = {
         "trusted_base": COMMON_TB + ["Expand/Expand.v: hand model of expander.go / schema_loader.go / resolver.go on JSON trees (base-path threading, parent stack, memo of circular refs, resolver roots, deref chains, rebasing, SkipSchemas/ContinueOnError/AbsoluteCircularRef, cache and loader log); abstractions: sub-schemas visited in JSON member order, `#/` refs into the live root read the original root (outputs on cyclic graphs compared through unfoldings)",
                                      "correspondence scope: every generated graph except those with schema ids and prefix-sibling documents (the areas of the open findings F9, F10, F10b), which are judged by the oracle only; multi-hop parameter/response/path-item chains and imported circular schemas are compared since the repairs of F7 and F8",
                                      "Codec/Codec.v (typed decoding of every resolved target) and Base/Url.v (normalizeURI, rebase)"],
-        "level_text": 'Coq theorems (Props/C08.v): strict mode turns an unresolvable schema reference into an error; continue mode leaves it verbatim (missing document/pointer) and returns no error; errors of the traversal always come from a child / a failed follow / a failed resolution / an unnormalisable URL (never invented), and a failing child stops the fold (never swallowed); NO SPURIOUS ERROR (Expand/ExpandComplete.v): when every reference of the graph is resolvable the schema expansion with fuel above the number of references returns a result from every consistent state; F22 (ill-typed target emptied in continue mode) as a theorem about the transcribed behaviour.',
-        "level_note": 'Partial: the converse at document level (an unresolvable reference that HAS TO be followed yields an error) is proved per reference (esr_strict) and checked by the oracle for whole documents; parameters/responses/path items are covered by correspondence + oracle.',
+        "level_text": 'Coq theorems (Props/C08.v): strict mode turns an unresolvable schema reference into an error; continue mode leaves it verbatim (missing document/pointer) and returns no error; errors of the traversal always come from a child / a failed follow / a failed resolution / an unnormalisable URL (never invented), and a failing child stops the fold (never swallowed); NO SPURIOUS ERROR (Expand/ExpandComplete.v): when every reference of the graph is resolvable the schema expansion with fuel above the number of references returns a result from every consistent state; FOR THE WHOLE OF ExpandSpec (Expand/ExpandChain.v, ExpandSpecSim.v: C08_expand_spec_no_spurious_error): on a checked graph in which every schema reference and every hop of every parameter/response/path-item chain designates an object, ExpandSpec returns a document — not an error — from every consistent state, AbsoluteCircularRef on or off, for every fuel above the number of references and the length of the chains (discharged on a two-document specification for every state); F22 (ill-typed target emptied in continue mode) as a theorem about the transcribed behaviour.',
+        "level_note": 'Partial: the converse at document level (an unresolvable reference that HAS TO be followed yields an error) is proved per reference (esr_strict: the error of a failed resolution is passed on, never swallowed) and checked by the oracle for whole documents; ContinueOnError at the level of parameters/responses/path items is covered by correspondence + oracle.',
         "technique": "Coq proof about a hand-written executable model of the expander + differential run (exact on acyclic graphs, unfoldings on cyclic ones) + property oracle on the implementation",
         "assumptions": ["loader is a function of the URL during one call", "documents are in normal form (reference objects carry only $ref)"],
     },
